@@ -93,3 +93,7 @@ package jerr
 //@   ensures e.includeTrace[len(e.includeTrace)-1].path == f.name
 //@   ensures LineIs(f.content, nlSym(f.content), atByte, e.includeTrace[len(e.includeTrace)-1].atLine)
 //@   ensures forall k :: 0 <= k && k < old(len(e.includeTrace)) ==> e.includeTrace[k] == old(e.includeTrace[k])
+
+// C02: every diagnostic is built by one of these functions, each of which is under contract (index inside the file it names).
+// A new function that builds a JApiError on its own is reported by this scan until it is listed - and then it needs a contract.
+//@ callers [C02] NewJApiError : (directive.Directive).makeError, (scanner.Scanner).japiError, (scanner.Scanner).japiErrorBasic, (*core.JApiCore).japiError, (*core.JApiCore).next, core.japiErrorForLexeme
